@@ -4,6 +4,7 @@ package xtime
 import (
 	"context"
 	"fmt"
+	"math"
 	"math/rand"
 	"sync"
 	"time"
@@ -91,9 +92,22 @@ func (t *JitterTicker) schedule() {
 	if t.timer != nil {
 		t.timer.Stop()
 	}
-	// +1 so that jitter == 0 is allowed (rand.Int63n panics for 0): the offset is uniform in
-	// [-jitter, +jitter].
-	next := t.d + time.Duration(rand.Int63n(int64(t.jitter*2)+1)) - (t.jitter)
+	// The next interval is d-jitter+r with r uniform in [0, 2*jitter]. Neither 2*jitter+1 nor
+	// d+jitter need fit into an int64, so r is drawn as a uint64 and the sum saturates at the
+	// largest Duration.
+	var r uint64
+	if t.jitter <= math.MaxInt64/2 {
+		// +1 so that jitter == 0 is allowed (rand.Int63n panics for 0).
+		r = uint64(rand.Int63n(int64(t.jitter*2) + 1))
+	} else {
+		for r = rand.Uint64(); r > uint64(t.jitter)*2; r = rand.Uint64() {
+		}
+	}
+	lo := t.d - t.jitter
+	next := time.Duration(math.MaxInt64)
+	if r <= uint64(math.MaxInt64-lo) {
+		next = lo + time.Duration(r)
+	}
 
 	// To prevent a latent goroutine already spawned but not yet running the below function from
 	// delivering a tick after Stop/Reset.
